@@ -3,7 +3,7 @@
 tier=${1:-quick}
 cd "$(dirname "$0")"
 rc=0
-for p in C01 C02 C03 C04 C05 C06 C07 C08 C09 C10 C11 C12 C13 C14 C15 C19; do
+for p in C01 C02 C03 C04 C05 C06 C07 C08 C09 C10 C11 C12 C13 C14 C15 C19 C20; do
   python3 verif.py run $p --tier $tier > work/last_$p.log 2>&1 || rc=1
   grep -E "^(VIOLATION|KNOWN-FINDING|INCONCLUSIVE)" work/last_$p.log | cut -c1-200
   tail -1 work/last_$p.log
